@@ -191,6 +191,7 @@ class Hist:
         self.cancelled = []
         self.n_items = 0
         self.flags = set()
+        self.falsy_items = False
         self.probe = {"put": 0, "get": 0, "put_nontrivial": 0, "get_nontrivial": 0}
 
     def log(self, *a):
@@ -213,6 +214,19 @@ def weights(profile):
     elif profile == "slow_consumer":
         w.update(rg=2, get=2, sleep=5, rp=6, put=8)
     return w
+
+
+_TRAY = {}
+
+
+def empty_tray_class(Item):
+    c = _TRAY.get(Item)
+    if c is None:
+        class EmptyTray(Item):
+            def __len__(self):
+                return 0
+        c = _TRAY[Item] = EmptyTray
+    return c
 
 
 def client(env, T, cid, rng, nops, W, H, mode, mon, other):
@@ -388,7 +402,9 @@ def client(env, T, cid, rng, nops, W, H, mode, mon, other):
         elif op == "put":
             tok = rng.choice(gp)
             H.n_items += 1
-            it = Item(f"c{cid}.{H.n_items}")
+            # hostile but valid payloads: in one history out of eight some items are empty containers (falsy: __len__ == 0);
+            # a store may test `item is None`, never the truth value of an item
+            it = (empty_tray_class(Item) if H.falsy_items and rng.random() < 0.4 else Item)(f"c{cid}.{H.n_items}")
             it.length = getattr(T, "item_length", 1)
             it.colour = rng.choice(COLOURS)
             T.put(tok, it, rng)
@@ -454,6 +470,7 @@ def run_case(seed, kind=None, profile=None, mode=None, nops=None):
     other = Target(env, mon, kind if kind not in ("belt_acc", "belt_nacc", "slotbelt") else "rrs", 2, random.Random(seed + 1))
     other.sh.label = "other-store"
     H = Hist()
+    H.falsy_items = rng.random() < 0.125
     W = weights(profile)
     for c in range(ncl):
         env.process(client(env, T, c, random.Random(rng.random()), nops, W, H, mode, mon, other))
